@@ -444,6 +444,283 @@ example : (run [⟨2, 20⟩, ⟨1, 10⟩] [.write 10 true 1, .write 20 true 2, .
 example : (run [⟨7, 70⟩] [.write 10 true 1, .lone 1 7]).map (fun s => (s.calls 1, s.closed, s.stream)) =
     some (some ⟨10, .done .err⟩, false, [⟨7, 70⟩]) := by decide
 
+/-! ### with a truthful broker nobody is stranded in waitResponse
+
+The waiter spin found while building the harness (two or more callers in `waitResponse`, a frame at the head of the
+buffer that belongs to none of them: everybody yields for ever, no deadline fires because `Peek` is served from the
+buffer) needs a broker that duplicates or invents correlation ids.  This is the theorem behind that remark: if the
+broker answers only requests that were written (`causal`) and never answers one twice (`Truthful`), then on an open
+conn no call ever ends in an error, `ErrNoProgress` is unreachable, and the frame at the head of the stream always
+belongs to a caller that is waiting for it — so `take` is enabled for somebody. -/
+
+/-- the broker never answers a request twice -/
+def Truthful (stream0 : List Frame) : Prop := (stream0.map (·.id)).Nodup
+
+/-- the frame a peek looks at answers a request that has been written (a broker cannot answer the future) -/
+def causal (s : State) : Event → Bool
+  | .take _ | .yield _ _ | .lone _ _ =>
+    match s.stream with
+    | f :: _ => (List.range (s.nextSeq + 1)).any (fun j => j ≥ 1 && f.id == wire j)
+    | [] => true
+  | _ => true
+
+def stepC (s : State) (e : Event) : Option State := if causal s e then step s e else none
+
+def runFromC : State → List Event → Option State
+  | s, [] => some s
+  | s, e :: es => match stepC s e with
+    | none => none
+    | some s' => runFromC s' es
+
+/-- every number 1 … nextSeq is a call -/
+def Total (s : State) : Prop := ∀ i, 1 ≤ i → i ≤ s.nextSeq → (s.calls i).isSome = true
+
+theorem setStatus_isSome (s : State) (seq : Nat) (st : Status) (i : Nat) (h : (s.calls i).isSome = true) :
+    (setStatus s seq st i).isSome = true := by
+  simp only [setStatus]
+  split
+  · next heq => subst heq; cases hc : s.calls i with
+    | none => rw [hc] at h; cases h
+    | some c => simp
+  · exact h
+
+theorem total_step {s s' : State} {e : Event} (ht : Total s) (h : step s e = some s') : Total s' := by
+  cases e with
+  | write tag ok id =>
+    simp only [step] at h
+    split at h
+    · cases h
+    · split at h <;> (simp only [Option.some.injEq] at h; subst h) <;>
+      · intro i h1 h2
+        simp only [upd]
+        split
+        · rfl
+        · exact ht i h1 (by simp only at h2; omega)
+  | take seq =>
+    simp only [step] at h
+    split at h
+    · split at h
+      · simp only [Option.some.injEq] at h; subst h
+        intro i h1 h2; exact setStatus_isSome s seq _ i (ht i h1 h2)
+      · cases h
+    · cases h
+  | yield seq seen =>
+    simp only [step] at h
+    split at h
+    · split at h
+      · simp only [Option.some.injEq] at h; subst h; exact ht
+      · cases h
+    · cases h
+  | lone seq seen =>
+    simp only [step] at h
+    split at h
+    · split at h
+      · simp only [Option.some.injEq] at h; subst h
+        intro i h1 h2; exact setStatus_isSome s seq _ i (ht i h1 h2)
+      · cases h
+    · cases h
+  | peekErr seq =>
+    simp only [step] at h
+    split at h
+    · simp only [Option.some.injEq] at h; subst h
+      intro i h1 h2; exact setStatus_isSome s seq _ i (ht i h1 h2)
+    · cases h
+  | finish seq o =>
+    simp only [step] at h
+    split at h
+    · split at h
+      · cases o <;> (simp only [Option.some.injEq] at h; subst h) <;>
+        · intro i h1 h2; exact setStatus_isSome s seq _ i (ht i h1 h2)
+      · cases h
+    · cases h
+
+/-- on an open conn no call has failed -/
+def NoFailure (s : State) : Prop := s.closed = false → ∀ i c, s.calls i = some c → c.st ≠ .done .err
+
+theorem wire_inj {i j : Nat} (hi : i < 4294967296) (hj : j < 4294967296) (h : wire i = wire j) : i = j := by
+  unfold wire at h; omega
+
+/-- a frame still in the stream is not the frame of a call that already holds one with the same id -/
+theorem head_not_taken {stream0 : List Frame} (ht : Truthful stream0) {s : State} (hi : Inv stream0 s)
+    {f : Frame} {rest : List Frame} (hs : s.stream = f :: rest) {j : Nat} {c : Call} {p : Nat} {g : Frame}
+    (hc : s.calls j = some c) (hg : c.st.frame = some (p, g)) (hid : f.id = wire j) : False := by
+  have ho := hi.own j c p g hc hg
+  have hdrop : stream0.drop s.consumed = f :: rest := by rw [hi.rest, hs]
+  have hf : stream0[s.consumed]? = some f := by
+    have := List.getElem?_drop (xs := stream0) (i := s.consumed) (j := 0)
+    rw [hdrop] at this; simpa using this.symm
+  have hp : p < s.consumed := ho.2.2
+  -- two positions of stream0 with the same id
+  unfold Truthful at ht
+  rw [List.Nodup, List.pairwise_iff_getElem] at ht
+  obtain ⟨hlp, hgp⟩ := List.getElem?_eq_some_iff.mp ho.1
+  obtain ⟨hlc, hgc⟩ := List.getElem?_eq_some_iff.mp hf
+  have := ht p s.consumed (by simpa using hlp) (by simpa using hlc) hp
+  apply this
+  simp only [List.getElem_map, hgp, hgc]
+  rw [ho.2.1, hid]
+
+theorem noFailure_step {stream0 : List Frame} (ht : Truthful stream0) {s s' : State} {e : Event}
+    (hi : Inv stream0 s) (htot : Total s) (hn : NoFailure s) (h : stepC s e = some s') : NoFailure s' := by
+  unfold stepC at h
+  split at h
+  · rename_i hcau
+    cases e with
+    | write tag ok id =>
+      simp only [step] at h
+      split at h
+      · cases h
+      · split at h <;> (simp only [Option.some.injEq] at h; subst h)
+        · intro hcl i c hc
+          simp only [upd] at hc
+          split at hc
+          · simp at hc; subst hc; simp
+          · exact hn hcl i c hc
+        · intro hcl; simp at hcl
+    | take seq =>
+      simp only [step] at h
+      split at h
+      · split at h
+        · simp only [Option.some.injEq] at h; subst h
+          intro hcl i c hc
+          simp only [setStatus] at hc
+          split at hc
+          · cases hcs : s.calls seq with
+            | none => rw [hcs] at hc; simp at hc
+            | some c0 => rw [hcs] at hc; simp at hc; subst hc; simp
+          · exact hn hcl i c hc
+        · cases h
+      · cases h
+    | yield seq seen =>
+      simp only [step] at h
+      split at h
+      · split at h
+        · simp only [Option.some.injEq] at h; subst h; exact hn
+        · cases h
+      · cases h
+    | lone seq seen =>
+      -- unreachable on an open conn: the head answers a written request j ≠ seq; j is not waiting (seq is alone),
+      -- has not failed (NoFailure), so it already holds a frame with that id — the broker answered twice
+      simp only [step] at h
+      split at h
+      · next f rest hl hst hs =>
+        split at h
+        · rename_i hcond
+          simp only [Option.some.injEq] at h; subst h
+          intro hcl
+          exfalso
+          have hcl : s.closed = false := hcl
+          obtain ⟨hseen, hne, halone⟩ := hcond
+          simp only [causal, hs, List.any_eq_true, Bool.and_eq_true, decide_eq_true_eq, beq_iff_eq, List.mem_range] at hcau
+          obtain ⟨j, hjr, hj1, hjid⟩ := hcau
+          have hjs : j ≠ seq := by
+            intro heq; subst heq; rw [hseen] at hjid; exact hne hjid
+          simp only [aloneWaiting, List.all_eq_true, List.mem_range, Bool.or_eq_true, beq_iff_eq, bne_iff_ne, ne_eq] at halone
+          rcases halone j hjr with hja | hja
+          · exact hjs hja
+          · cases hcj : s.calls j with
+            | none =>
+              have := htot j hj1 (by omega)
+              rw [hcj] at this; cases this
+            | some c =>
+              have hnw : c.st ≠ .waiting := by
+                intro hw; apply hja; simp [statusOf, hcj, hw]
+              have hne2 := hn hcl j c hcj
+              cases hst2 : c.st with
+              | waiting => exact hnw hst2
+              | reading p g => exact head_not_taken ht hi hs hcj (by rw [hst2]; rfl) hjid
+              | done r =>
+                cases r with
+                | err => exact hne2 hst2
+                | resp p g => exact head_not_taken ht hi hs hcj (by rw [hst2]; rfl) hjid
+                | kafkaErr p g => exact head_not_taken ht hi hs hcj (by rw [hst2]; rfl) hjid
+        · cases h
+      · cases h
+    | peekErr seq =>
+      simp only [step] at h
+      split at h
+      · simp only [Option.some.injEq] at h; subst h; intro hcl; simp at hcl
+      · cases h
+    | finish seq o =>
+      simp only [step] at h
+      split at h
+      · split at h
+        · cases o <;> (simp only [Option.some.injEq] at h; subst h)
+          · intro hcl i c hc
+            simp only [setStatus] at hc
+            split at hc
+            · cases hcs : s.calls seq with
+              | none => rw [hcs] at hc; simp at hc
+              | some c0 => rw [hcs] at hc; simp at hc; subst hc; simp
+            · exact hn hcl i c hc
+          · intro hcl i c hc
+            simp only [setStatus] at hc
+            split at hc
+            · cases hcs : s.calls seq with
+              | none => rw [hcs] at hc; simp at hc
+              | some c0 => rw [hcs] at hc; simp at hc; subst hc; simp
+            · exact hn hcl i c hc
+          · intro hcl; simp at hcl
+        · cases h
+      · cases h
+  · cases h
+
+theorem stepC_step {s s' : State} {e : Event} (h : stepC s e = some s') : step s e = some s' := by
+  unfold stepC at h; split at h
+  · exact h
+  · cases h
+
+theorem truthful_run {stream0 : List Frame} (ht : Truthful stream0) : ∀ (es : List Event) (s s' : State),
+    Inv stream0 s → Total s → NoFailure s → runFromC s es = some s' → Inv stream0 s' ∧ Total s' ∧ NoFailure s' := by
+  intro es
+  induction es with
+  | nil => intro s s' hi htot hn h; simp [runFromC] at h; subst h; exact ⟨hi, htot, hn⟩
+  | cons e es ih =>
+    intro s s' hi htot hn h
+    simp only [runFromC] at h
+    split at h
+    · cases h
+    · next s1 h1 =>
+      exact ih s1 s' (inv_step hi (stepC_step h1)) (total_step htot (stepC_step h1)) (noFailure_step ht hi htot hn h1) h
+
+/-- **truthful_broker_never_strands_waiters.**  If the broker answers only written requests and none of them
+twice (it may still reorder and delay as it likes), then in every reachable state of an open conn:
+(1) no call has failed — in particular `io.ErrNoProgress` has not happened and cannot;
+(2) whenever the read lock is free, the frame at the head of the stream belongs to a caller that is waiting for
+    it, so that caller's `take` is enabled: the yield loop of `waitResponse` always has somebody to yield to. -/
+theorem truthful_broker_never_strands_waiters (stream0 : List Frame) (ht : Truthful stream0)
+    (es : List Event) (s : State) (h : runFromC (init stream0) es = some s) (hopen : s.closed = false) :
+    (∀ i c, s.calls i = some c → c.st ≠ .done .err) ∧
+    (s.rlock = none → ∀ f rest, s.stream = f :: rest → ∀ j, 1 ≤ j → j ≤ s.nextSeq → f.id = wire j →
+      (step s (.take j)).isSome = true) := by
+  have h0t : Total (init stream0) := by intro i h1 h2; simp [init] at h2; omega
+  have h0n : NoFailure (init stream0) := by intro _ i c hc; simp [init] at hc
+  obtain ⟨hi, htot, hn⟩ := truthful_run ht es (init stream0) s (inv_init stream0) h0t h0n h
+  refine ⟨hn hopen, ?_⟩
+  intro hl f rest hs j hj1 hjn hid
+  cases hcj : s.calls j with
+  | none => have := htot j hj1 hjn; rw [hcj] at this; cases this
+  | some c =>
+    have hne := hn hopen j c hcj
+    have hw : c.st = .waiting := by
+      cases hst : c.st with
+      | waiting => rfl
+      | reading p g => exact (head_not_taken ht hi hs hcj (by rw [hst]; rfl) hid).elim
+      | done r =>
+        cases r with
+        | err => exact absurd hst hne
+        | resp p g => exact (head_not_taken ht hi hs hcj (by rw [hst]; rfl) hid).elim
+        | kafkaErr p g => exact (head_not_taken ht hi hs hcj (by rw [hst]; rfl) hid).elim
+    simp [step, hl, statusOf, hcj, hw, hs, hid]
+
+/-- the hypothesis is needed: one duplicated answer and two later callers — both waiters see a frame that belongs
+to neither, both can only yield (neither is alone), for ever -/
+theorem duplicate_answer_strands_waiters_counterexample :
+    let s := run [⟨1, 0⟩, ⟨1, 0⟩] [.write 10 true 1, .take 1, .finish 1 .ok, .write 20 true 2, .write 30 true 3]
+    s.map (fun s => ((step s (.take 2)).isSome, (step s (.take 3)).isSome, (step s (.lone 2 1)).isSome,
+                      (step s (.lone 3 1)).isSome, (step s (.yield 2 1)).isSome, (step s (.yield 3 1)).isSome)) =
+      some (false, false, false, false, true, true) := by decide
+
 /-! ## Part 2 — pooled connections of a Transport -/
 
 section Transport
